@@ -37,7 +37,7 @@ for prop in sorted(os.listdir(SRC)):
         try:
             def one(p):
                 c = subprocess.run(["/verif/check", p], capture_output=True, text=True, cwd="/verif")
-                tag = "DETECTED" if c.returncode == 1 else ("checker-error" if c.returncode == 2 else "missed")
+                tag = "DETECTED" if (c.returncode == 1 and "VIOLATION property=" in c.stdout) else ("checker-error" if c.returncode != 0 else "missed")
                 first = next((l.strip() for l in c.stdout.splitlines() if l.startswith("  rule=")), None) or next((l for l in c.stdout.splitlines() if l.startswith("CHECKER-ERROR")), None)
                 return p, {"result": tag, "first": (first or "")[:260]}
             row.update([one(props[0])])          # first check performs the (locked, cached) extraction
